@@ -66,6 +66,7 @@ func checkDownloadAndExtractESPClang(platformSuffix, dir string) error {
 
 	// Use temporary extraction directory for ESP Clang special handling
 	tempExtractDir := dir + ".extract"
+	os.RemoveAll(tempExtractDir) // left behind by a process that was killed
 	if err := downloadAndExtractArchive(clangUrl, tempExtractDir, description); err != nil {
 		return err
 	}
@@ -104,6 +105,7 @@ func checkDownloadAndExtractLib(url, dstDir, internalArchiveSrcDir string) error
 
 	// Use temporary extraction directory
 	tempExtractDir := dstDir + ".extract"
+	os.RemoveAll(tempExtractDir) // left behind by a process that was killed
 	if err := downloadAndExtractArchive(url, tempExtractDir, description); err != nil {
 		return err
 	}
